@@ -21,9 +21,9 @@ PROBES_EXPECTED = ('cache.locked_reprobe_hit', 'cache.takeover_dead_loop', 'cach
 
 
 def batches(tier):
-    k = 1 if tier == 'quick' else 12
-    return [{'name': 'nofault', 'n': 6000 * k, 'profile': 'c01-nofault'},
-            {'name': 'faults', 'n': 18000 * k, 'profile': 'c01'}]
+    k = 1 if tier == 'quick' else 40
+    return [{'name': 'nofault', 'n': 8000 * k, 'profile': 'c01-nofault'},
+            {'name': 'faults', 'n': 40000 * k, 'profile': 'c01'}]
 
 
 def make_case(batch, seed):
